@@ -2023,7 +2023,29 @@ func waitEstCorrespondence(o *Out, rec *recorder, mv nextroute.SolutionMoveStops
 			stopC, stopEv = c, ev
 		}
 	}
-	if vehEv == nil && stopEv == nil {
+	type latestEv struct {
+		c   nextroute.LatestStart
+		ev  *estEvent
+		ref string
+	}
+	var latests []latestEv
+	for i := range rec.ests {
+		ev := &rec.ests[i]
+		if ev.Move != nextroute.SolutionMove(mv) {
+			continue
+		}
+		if c, ok := ev.Constraint.(nextroute.LatestStart); ok {
+			switch fmt.Sprint(ev.Constraint) {
+			case "late_start_penalty":
+				latests = append(latests, latestEv{c, ev, "start"})
+			case "late_end_penalty":
+				latests = append(latests, latestEv{c, ev, "finish"})
+			case "late_arrival_penalty":
+				latests = append(latests, latestEv{c, ev, "arrival"})
+			}
+		}
+	}
+	if vehEv == nil && stopEv == nil && len(latests) == 0 {
 		return
 	}
 	vt := v.ModelVehicle().VehicleType()
@@ -2081,6 +2103,14 @@ func waitEstCorrespondence(o *Out, rec *recorder, mv nextroute.SolutionMoveStops
 		items = append(items, fmt.Sprintf("%s;%s;%s;%s;%s;%s;%s;%s", rat(travel), rat(end-start), b01(to.IsPlanned()), rat(mw),
 			rat(cArr), rat(cEnd), rat(cPrev), wins))
 		prevEnd = end
+	}
+	for _, le := range latests {
+		var lat []string
+		for i := firstIns; i < len(hyp); i++ {
+			lat = append(lat, rat(le.c.Latest().Value(nil, nil, hyp[i].ModelStop())))
+		}
+		o.Op(fmt.Sprintf("est latest %s %s %s %s", le.ref, rat(pe), strings.Join(lat, ","), strings.Join(items, " ")), "est "+b01(le.ev.Violated))
+		o.Count("est-correspondence:latest-" + le.ref)
 	}
 	if vehEv != nil {
 		mx := vehC.Maximum().Value(vt, nil, nil)
